@@ -10,7 +10,9 @@ import (
 
 	"github.com/datastax/go-cassandra-native-protocol/datatype"
 	"github.com/datastax/go-cassandra-native-protocol/frame"
+	"github.com/datastax/go-cassandra-native-protocol/compression/lz4"
 	"github.com/datastax/go-cassandra-native-protocol/primitive"
+	"github.com/datastax/go-cassandra-native-protocol/segment"
 	"verif/internal/gen"
 	"verif/internal/lp"
 	"verif/internal/show"
@@ -317,6 +319,51 @@ func runC04(res *lp.Result) {
 		}
 	}
 	currentInput.Store("")
+	// v5 segments whose header fields lie — with the CRCs recomputed, as any peer can do: declared uncompressed length larger or
+	// smaller than what the block expands to, compressed length off by a few bytes, on compressible and incompressible payloads
+	{
+		segCodecs := map[string]segment.Codec{"none": segment.NewCodec(), "lz4": segment.NewCodecWithCompression(lz4.Compressor{})}
+		for _, p := range [][]byte{bytes.Repeat([]byte("abcdefgh"), 25), rng.Bytes(200), {}, {1}} {
+			c, cerr := lz4Raw(p)
+			if cerr != nil {
+				continue
+			}
+			for _, declared := range []int{0, 1, len(p) - 1, len(p), len(p) + 1, 201, 4096, 65536, 131071} {
+				if declared < 0 {
+					continue
+				}
+				for _, wire := range [][]byte{c, c[:len(c)/2], append(append([]byte{}, c...), 0, 0, 0), p} {
+					for _, sc := range []bool{true, false} {
+						in := refSegment(true, sc, wire, declared)
+						id := hx(in)
+						currentInput.Store("seg dec lz4 " + id)
+						res.Count("segments/lying-headers")
+						o := guarded(func() (string, int, error) {
+							_, err := segCodecs["lz4"].DecodeSegment(bytes.NewReader(in))
+							return "", 0, err
+						})
+						record("DecodeSegment/lz4", id, o, "ok")
+					}
+				}
+			}
+			for _, sc := range []bool{true, false} {
+				in := refSegment(false, sc, p, 0)
+				for _, cut := range []int{0, 3, 5, len(in) - 1} {
+					if cut > len(in) {
+						continue
+					}
+					m := in[:cut]
+					currentInput.Store("seg dec none " + hx(m))
+					o := guarded(func() (string, int, error) {
+						_, err := segCodecs["none"].DecodeSegment(bytes.NewReader(m))
+						return "", 0, err
+					})
+					record("DecodeSegment/none", hx(m), o, "ok")
+				}
+			}
+		}
+		currentInput.Store("")
+	}
 	// the CQL value decoders (datacodec): mutated encodings into untyped and typed destinations
 	modes["C04V"](res)
 }
